@@ -52,7 +52,9 @@ def _dyadic_case(draw, tier):
 def _entropy_case(draw, tier):
     cfg = draw(history.configs(wrappers=("interval", "tree"), allow_user=False))
     ops = draw(history.op_lists(cfg, min_ops=1, max_ops=4, max_sweep=6, allow_zero=False))
-    return {"kind": "entropy", "cfg": cfg, "ops": ops, "other": draw(st.integers(0, 2 ** 31 - 2))}
+    # the other entropy: an unrelated one, or the immediate neighbour (entropy + 1)
+    return {"kind": "entropy", "cfg": cfg, "ops": ops,
+            "other": draw(st.one_of(st.integers(0, 2 ** 31 - 2), st.just(cfg["entropy"] + 1)))}
 
 
 def strategy(tier):
@@ -139,3 +141,107 @@ def run_case(case):
             "entropy_ignored", f"entropies {cfg['entropy']} and {cfg2['entropy']} give identical increments on "
                                f"{len(q)} queries", sig))
     return Result(nontrivial=bool(q), labels=labels, checks=checks)
+
+
+# ---- cross-process reproducibility (finalize) -------------------------------------------------------------------------
+def _xp_configs(seed, n):
+    import random
+    rnd = random.Random(seed * 9176 + 5)
+    out = []
+    for k in range(n):
+        wrapper = rnd.choice(["interval", "interval", "tree"])
+        halfway = wrapper == "tree" or rnd.random() < 0.4
+        tol = rnd.choice([1e-2, 1e-3, 1e-6]) if halfway else rnd.choice([0.0, 0.0, 1e-3])
+        cfg = {"wrapper": wrapper, "t0": 0.0, "t1": 1.0, "shape": rnd.choice([[2], [2, 2], [3, 2]]),
+               "levy": "none" if wrapper == "tree" else rnd.choice(["none", "space-time", "davie", "foster"]),
+               "entropy": rnd.choice([0, rnd.randrange(2 ** 31), rnd.randrange(2 ** 31), 2 ** 53 + rnd.randrange(100)]),
+               "dtype": "float64", "cache_size": rnd.choice([1, 5, 45, None]) if wrapper == "interval" else 45,
+               "dt": None, "tol": tol, "halfway": halfway, "user_W": False, "user_H": False, "grid": 100}
+        if cfg["levy"] in ("davie", "foster") and len(cfg["shape"]) < 2:
+            cfg["shape"] = [2, 2]
+        qs = []
+        for _ in range(rnd.randint(3, 12)):
+            i = rnd.randrange(0, 99)
+            qs.append(["q", i, rnd.randrange(i + 1, 101)])
+        out.append({"cfg": cfg, "ops": qs})
+    return out
+
+
+def _xp_digest(torchsde, case):
+    import hashlib
+    bm, _, _ = history.build(case["cfg"], torchsde, torch)
+    h = hashlib.sha1()
+    for (a, b) in history.expand(case):
+        for x in bm(a, b):
+            if x is not None:
+                h.update(x.contiguous().numpy().tobytes())
+    return h.hexdigest()
+
+
+def _xp_main(path):
+    """Child process: digests of the cases in `path`, computed in reverse order in a process that has seen nothing else."""
+    import json
+    from .. import core
+    torchsde = core.setup_imports()
+    cases = json.load(open(path))
+    out = {}
+    for k in reversed(range(len(cases))):
+        out[str(k)] = _xp_digest(torchsde, cases[k])
+    print("XPDIGESTS " + json.dumps(out))
+
+
+def finalize(tier, seed, stats):
+    """Values depend only on (entropy, options, queries): a process that has used *other* Brownian objects with the same
+    entropies (other pool_size / tree mode / shape) must return what a fresh process returns for the same objects."""
+    import json
+    import os
+    import subprocess
+    import sys
+    import tempfile
+    import torchsde
+    from .. import core
+    n = 24 if tier == "quick" else 200
+    cases = _xp_configs(seed, n)
+    # pollution: objects sharing the entropies but not the options
+    polluted = 0
+    for c in cases:
+        cfg = c["cfg"]
+        if cfg["wrapper"] == "tree":
+            decoy = dict(cfg, wrapper="interval", halfway=True, cache_size=45, pool_size=8)
+        else:
+            decoy = dict(cfg, pool_size=24)
+        try:
+            _xp_digest(torchsde, {"cfg": decoy, "ops": c["ops"]})
+            polluted += 1
+        except Exception:  # noqa  - a decoy is only there to disturb global state
+            pass
+    here = {str(k): _xp_digest(torchsde, c) for k, c in enumerate(cases)}
+    fd, path = tempfile.mkstemp(suffix=".json", prefix="vp-c06-")
+    try:
+        with os.fdopen(fd, "w") as fh:
+            json.dump(cases, fh)
+        r = subprocess.run([sys.executable, "-W", "ignore", "-c",
+                            f"import sys; sys.path.insert(0, {core.VERIF_DIR!r}); from vp.props import c06; "
+                            f"c06._xp_main({path!r})"],
+                           capture_output=True, text=True, timeout=900, cwd=core.VERIF_DIR,
+                           env=dict(os.environ, PYTHONHASHSEED="0"))
+    finally:
+        os.unlink(path)
+    line = [l for l in r.stdout.splitlines() if l.startswith("XPDIGESTS ")]
+    cov = {"cross_process_cases": n, "cross_process_decoy_objects": polluted}
+    if not line:
+        cov["cross_process_inconclusive"] = (r.stderr or r.stdout)[-300:]
+        return cov
+    there = json.loads(line[0][len("XPDIGESTS "):])
+    bad = [k for k in here if here[k] != there.get(k)]
+    cov["cross_process_mismatches"] = len(bad)
+    if bad:
+        k = int(bad[0])
+        stats.violations.append({"case": {"kind": "same", "cfg": cases[k]["cfg"], "ops": cases[k]["ops"]}, "shrunk": False,
+                                 "no_fresh_confirm": True,      # the failure *is* a difference from a fresh process
+                                 "fail": {"clause": "cross_process:same_entropy_differs",
+                                          "msg": f"{len(bad)} of {n} Brownian objects return other values in a process that "
+                                                 f"used objects with the same entropy but other options before than in a "
+                                                 f"fresh process (first: case {k}, entropy {cases[k]['cfg']['entropy']})",
+                                          "sig": {"kind": "cross_process"}}})
+    return cov
